@@ -30,6 +30,8 @@ Next == /\ l <= Len(Trace)
              [] e.ev = "payload" ->
                   /\ IF PartialOK(e) THEN TRUE ELSE PrintT(<<"REJ", l, "C13", "NONE">>)
                   /\ IF PayloadOK(e) THEN TRUE ELSE PrintT(<<"REJ", l, "C06", IF Dev_LinkageTypeIgnored(e) THEN "Dev_LinkageTypeIgnored" ELSE "NONE">>)
+             [] e.ev = "colpayload" ->
+                  IF ColPayloadOK(e) THEN TRUE ELSE PrintT(<<"REJ", l, IF e.out = "panic" THEN "C05" ELSE "C06", "NONE">>)
              [] OTHER -> PrintT(<<"REJ", l, "C06", "unknown-event">>)
 Spec == Init /\ [][Next]_l
 AllConsumed == TLCGet("stats").diameter - 1 = Len(Trace)
